@@ -34,7 +34,7 @@ RULE = ("one case = one generated frame (2 base columns, nested columns n1 (1-4 
 ASSUMPTIONS = ["the parquet codec is Arrow's: write_table / read_table keep values, nulls at struct and list level and order (contract)",
 ]
 CORRESPONDENCE = "m_regroup (Io.v) vs the column list produced by read_parquet(columns=...)"
-EXTRA_IMPORTS = "Dtype Names Io"
+EXTRA_IMPORTS = "Dtype Names Io Io2"
 
 
 def cq_s(s):
@@ -182,6 +182,7 @@ def generate(ctx):
                 if r[0] == "ok":
                     back = r[1]
                     outs = []
+                    partial_terms = []
                     ok_vals = len(back) == n
                     for c in back.columns:
                         dt = back.dtypes[c]
@@ -195,6 +196,10 @@ def generate(ctx):
                                 ok_vals = False          # the FULL read did not return a nested column
                                 continue
                             rows_f = full[c].array.chunked_array.to_pylist()
+                            if partial and isinstance(dt, NestedDtype):
+                                # the content, physically: the full read of the file against the partial load (Io2.v)
+                                partial_terms.append(f"chk_partial_load {core.cq_phys(core.phys(full[c].array.chunked_array))} "
+                                                     f"{core.cq_strs(fields)} {core.cq_phys(core.phys(back[c].array.chunked_array))}")
                             for rb, rf in zip(rows_b, rows_f):
                                 if rf is None:
                                     if rb is not None:
@@ -219,8 +224,12 @@ def generate(ctx):
                     got_flat = [str(c) for c in back.columns if str(c) not in [w_[0] for w_ in want]]
                     got_structs = [(str(c), [f.name for f in back.dtypes[c].pyarrow_dtype]) for c in back.columns if str(c) in [w_[0] for w_ in want]]
                     exact = got_flat == flat_want and got_structs == [(a, b) for a, b in want]
-                    term = (f"[match m_regroup {rej_t} {cols_t} with Ok (_, out) => list_eqb outcol_eqb out {cq_list(outs)} | Err => false end; "
-                            f"{cq_bool(ok_vals and exact and kind != 'full_and_partial')}; true; true]")
+                    pl = cq_list(partial_terms)
+                    term = (f"(let PL : list (list bool) := {pl} in "
+                            f"[match m_regroup {rej_t} {cols_t} with Ok (_, out) => list_eqb outcol_eqb out {cq_list(outs)} | Err => false end "
+                            f"&& forallb (fun l => nth 0 l false) PL; "
+                            f"{cq_bool(ok_vals and exact and kind != 'full_and_partial')} && forallb (fun l => nth 1 l false) PL; "
+                            f"forallb (fun l => nth 2 l false) PL; forallb (fun l => nth 3 l false) PL])")
                     impl_repr = {"columns": [str(c) for c in back.columns], "values_equal_full_read": ok_vals, "exactly_requested": exact}
                 else:
                     term = (f"[match m_regroup {rej_t} {cols_t} with Ok _ => false | Err => true end; "
